@@ -172,6 +172,10 @@ func (V *Verifier) srcText(v interface{}, pos token.Pos) string {
 			if s.Defer == pos {
 				stmtCall = s.Call
 			}
+		case *ast.ReturnStmt:
+			if _, isRet := v.(*ssa.Return); isRet && s.Return == pos {
+				stmtCall = s
+			}
 		}
 		return true
 	})
